@@ -337,3 +337,28 @@ for _k, _v in {
     'C20': ' A clip of 140 variables through the command line.',
 }.items():
     ADDENDA[_k] = ADDENDA.get(_k, '') + _v
+
+# round 11
+for _k, _v in {
+    'C01': ' Indexes beyond 32 bits; a SHOC dataset opened earlier with caller-given names.',
+    'C02': ' A 200 x 300 grid with native indexes held in narrow integer types; refusals before valid use.',
+    'C03': ' After other short-lived datasets in the same process; after refusals of variables on no grid.',
+    'C04': ' A reference native index; SHOC files with face longitude stored (i, j); a 33,000-node mesh stored as shorts.',
+    'C05': ' One station list in two models (fresh processes, 14 environments); a refused request corrected in place.',
+    'C06': ' A strict first attempt (invalid-polygon warning as error), then again.',
+    'C07': ' After other short-lived meshes; renumbering tables exact for every 32-bit number.',
+    'C08': ' A mask file name used before for another mask; clip-save-reopen in 14 process environments.',
+    'C09': ' Clip-save-reopen in 14 process environments (hash seeds, time zones, locale).',
+    'C10': ' Mixed-orientation tables in 14 process environments; a 50,000-node mesh.',
+    'C11': ' Detection with 1-D axes and 2-D fields in 14 process environments; refused, completed in place, detected.',
+    'C12': ' 160 layers (33,000 thorough); asked again through the convention after an in-place edit.',
+    'C13': ' Six depth coordinates by name in 14 process environments (keep_attrs=False among them).',
+    'C14': ' 70,000 cells of one shape; after other short-lived datasets.',
+    'C15': ' A file with staggered-grid axes exported in 14 process environments.',
+    'C16': ' A mesh refused, corrected in place and keyed; SHOC key after another dataset was opened with caller-given names.',
+    'C17': ' Saving with several date-time coordinates and the formatter in 14 process environments; decode after a failed save.',
+    'C18': ' A path through 1,200 cells.',
+    'C19': ' After other short-lived plots; one-based meshes with attribute fill values.',
+    'C20': ' clip from the command line in 14 process environments.',
+}.items():
+    ADDENDA[_k] = ADDENDA.get(_k, '') + _v
